@@ -1096,7 +1096,7 @@ func runLexnumWal(c *Ctx, r *RuleRun) {
 					continue
 				}
 				var calls []*ssa.Call
-				collectCalls(st.Val, 0, map[ssa.Value]bool{}, &calls)
+				collectCalls(p, st.Val, 0, map[ssa.Value]bool{}, &calls)
 				for _, call := range calls {
 					obj := p.ExtCallee(call)
 					if obj == nil {
@@ -1166,7 +1166,7 @@ func fixedWidthLayout(l string) bool {
 	return true
 }
 
-func collectCalls(v ssa.Value, depth int, seen map[ssa.Value]bool, out *[]*ssa.Call) {
+func collectCalls(ccProg *Prog, v ssa.Value, depth int, seen map[ssa.Value]bool, out *[]*ssa.Call) {
 	if v == nil || depth > 8 || seen[v] {
 		return
 	}
@@ -1175,40 +1175,47 @@ func collectCalls(v ssa.Value, depth int, seen map[ssa.Value]bool, out *[]*ssa.C
 	case *ssa.Call:
 		*out = append(*out, x)
 		for _, a := range x.Call.Args {
-			collectCalls(a, depth+1, seen, out)
+			collectCalls(ccProg, a, depth+1, seen, out)
 		}
 	case *ssa.Phi:
 		for _, e := range x.Edges {
-			collectCalls(e, depth+1, seen, out)
+			collectCalls(ccProg, e, depth+1, seen, out)
 		}
 	case *ssa.MakeInterface:
-		collectCalls(x.X, depth+1, seen, out)
+		collectCalls(ccProg, x.X, depth+1, seen, out)
 	case *ssa.BinOp:
-		collectCalls(x.X, depth+1, seen, out)
-		collectCalls(x.Y, depth+1, seen, out)
+		collectCalls(ccProg, x.X, depth+1, seen, out)
+		collectCalls(ccProg, x.Y, depth+1, seen, out)
 	case *ssa.Slice:
-		collectCalls(x.X, depth+1, seen, out)
+		collectCalls(ccProg, x.X, depth+1, seen, out)
 	case *ssa.Alloc:
 		for _, ref := range *x.Referrers() {
 			if ia, ok := ref.(*ssa.IndexAddr); ok {
 				for _, r2 := range *ia.Referrers() {
 					if st, ok := r2.(*ssa.Store); ok {
-						collectCalls(st.Val, depth+1, seen, out)
+						collectCalls(ccProg, st.Val, depth+1, seen, out)
 					}
 				}
 			}
 			if st, ok := ref.(*ssa.Store); ok && st.Addr == x {
-				collectCalls(st.Val, depth+1, seen, out)
+				collectCalls(ccProg, st.Val, depth+1, seen, out)
+			}
+		}
+	case *ssa.Parameter:
+		// a constructor that is handed the value (newWAL(path, version, fd)): what its call sites pass
+		if ccProg != nil && !ccProg.isExported(x.Parent()) {
+			for _, a := range ccProg.callerArgs(x) {
+				collectCalls(ccProg, a, depth+1, seen, out)
 			}
 		}
 	case *ssa.UnOp:
-		collectCalls(x.X, depth+1, seen, out)
+		collectCalls(ccProg, x.X, depth+1, seen, out)
 	case *ssa.Extract:
-		collectCalls(x.Tuple, depth+1, seen, out)
+		collectCalls(ccProg, x.Tuple, depth+1, seen, out)
 	case *ssa.Convert:
-		collectCalls(x.X, depth+1, seen, out)
+		collectCalls(ccProg, x.X, depth+1, seen, out)
 	case *ssa.ChangeType:
-		collectCalls(x.X, depth+1, seen, out)
+		collectCalls(ccProg, x.X, depth+1, seen, out)
 	}
 }
 
